@@ -1543,6 +1543,7 @@ class System:
                 or tname == "PSWITCH"
                 or tname == "PMUX"
                 or tname == "SOURCE"
+                or tname == "RECTIFIER"
             ):
                 if len(self._phase_lkup[n]) > 0:
                     for p in phase_names:
